@@ -92,7 +92,7 @@ def window_geobox(rng: random.Random, entry, npix: Tuple[int, int] = (32, 32), e
     ext = min(ext, (lon1 - lon0) * 0.45, (lat1 - lat0) * 0.45)
     lon = rng.uniform(lon0 + ext, lon1 - ext)
     lat = rng.uniform(lat0 + ext, lat1 - ext)
-    tr = pyproj.Transformer.from_crs("EPSG:4326", crs, always_xy=True)
+    tr = transformer("EPSG:4326", crs)
     xs, ys = tr.transform([lon - ext / 2, lon + ext / 2, lon - ext / 2, lon + ext / 2], [lat - ext / 2, lat - ext / 2, lat + ext / 2, lat + ext / 2])
     x0, x1, y0, y1 = min(xs), max(xs), min(ys), max(ys)
     ny, nx = npix
@@ -144,3 +144,14 @@ def gbox_close(a, b, tol_px: float = 1e-6) -> bool:
     mag = max(1.0, float(np.abs(pa).max()), float(np.abs(pb).max()))
     tol = tol_px + 64 * math.ulp(mag) / px
     return bool(np.abs(d).max() <= tol)
+
+
+import functools
+
+
+@functools.lru_cache(maxsize=256)
+def transformer(src: str, dst: str):
+    """The oracle's own pyproj transformer (never the library's cached one)."""
+    import pyproj
+
+    return pyproj.Transformer.from_crs(src, dst, always_xy=True)
